@@ -1,6 +1,7 @@
 use crate::Outcome;
 use serde_json::Value;
 
+mod c08;
 mod c20;
 
 type SearchResult = (u64, Option<(Value, Outcome)>);
@@ -19,17 +20,24 @@ pub fn run(case: &str, args: &Value) -> Option<Outcome> {
 fn run_inner(case: &str, args: &Value) -> Option<Outcome> {
     match case {
         "c20_merge" => Some(c20::merge(args)),
+        "c08_num" | "c08_num_search_maximum" | "c08_num_search_minimum" | "c08_num_search_multiple_of" => Some(c08::num(args)),
+        "c08_len" => Some(c08::len(args)),
         _ => None,
     }
 }
 
-pub fn search(case: &str, seed: u64) -> Option<SearchResult> {
+pub fn search(case: &str, seed: u64, open: &[String]) -> Option<SearchResult> {
     let gen: Box<dyn Iterator<Item = Value>> = match case {
         "c20_merge" => Box::new(c20::merge_inputs(seed)),
+        "c08_num_search_maximum" => Box::new(c08::num_inputs("maximum", seed)),
+        "c08_num_search_minimum" => Box::new(c08::num_inputs("minimum", seed)),
+        "c08_num_search_multiple_of" => Box::new(c08::num_inputs("multiple_of", seed)),
+        "c08_len" => Box::new(c08::len_inputs(seed)),
         _ => return None,
     };
     let mut tried = 0u64;
     for input in gen {
+        if in_known_region(case, &input, open) { continue; }
         tried += 1;
         if let Some(o) = run(case, &input) {
             if !o.holds {
@@ -38,4 +46,16 @@ pub fn search(case: &str, seed: u64) -> Option<SearchResult> {
         }
     }
     Some((tried, None))
+}
+
+/// inputs inside the region of an OPEN known finding are skipped by the witness search (they are reported as KNOWN-FINDING)
+fn in_known_region(case: &str, input: &Value, open: &[String]) -> bool {
+    let has = |id: &str| open.iter().any(|x| x == id);
+    if case.starts_with("c08_num") {
+        let t = input["T"].as_str().unwrap_or("");
+        if has("C08-unsigned-wrap") && (t == "u64" || t == "usize") && input["N"] == "i64" {
+            if let Some(v) = input["v"].as_str().and_then(|s| s.parse::<i128>().ok()) { return v > i64::MAX as i128; }
+        }
+    }
+    false
 }
